@@ -16,7 +16,7 @@ Definition token_specials : list byte := [33;35;36;37;38;39;42;43;45;46;94;95;96
 Definition is_token (c : byte) : bool := is_num c || is_alpha c || existsb (N.eqb c) token_specials.
 
 Definition SP := 32. Definition CR := 13. Definition LF := 10. Definition HT := 9.
-Definition COLON := 58. Definition SLASH := 47. Definition STAR := 42. Definition DASH := 45.
+Definition SEMI := 59. Definition COLON := 58. Definition SLASH := 47. Definition STAR := 42. Definition DASH := 45.
 Definition COMMA := 44. Definition cH := 72. Definition PLUS := 43. Definition MINUS := 45.
 
 Definition to_upper (c : byte) : byte := if is_lower c then c - 32 else c.
@@ -112,7 +112,7 @@ Inductive state :=
 | SClose | SMethodBefore | SMethod | SPathBefore | SPath | SProtoBefore | SProto | SProtoLF
 | SClientProtoBefore | SClientProto | SStatusCodeBefore | SStatusCode | SStatusBefore | SStatus | SStatusLF
 | SHeaderKeyBefore | SHeaderValueLF | SHeaderKey | SHeaderValueBefore | SHeaderValue
-| SBodyContentLength | SHeaderOverLF | SChunkSizeBefore | SChunkSize | SChunkSizeLF | SChunkData
+| SBodyContentLength | SHeaderOverLF | SChunkSizeBefore | SChunkSize | SChunkExt | SChunkSizeLF | SChunkData
 | SChunkDataCR | SChunkDataLF | STrailerValueLF | STrailerKeyBefore | STrailerKey
 | STrailerValueBefore | STrailerValue | STailCR | STailLF.
 
@@ -361,10 +361,13 @@ Definition stepb (p : pst) (c : byte) : outcome :=
           | None => Fail ErrOther []
           end
         else k p in
-      if N.eqb c SP then parse_if_needed (fun p1 => Go_on (keep c p1) [])
+      if N.eqb c SP || N.eqb c HT then parse_if_needed (fun p1 => Go_on (keep c p1) [])
+      else if N.eqb c SEMI then parse_if_needed (fun p1 => Go_on (keep c (set_st SChunkExt p1)) [])
       else if N.eqb c CR then parse_if_needed (fun p1 => Go_on (after (set_st SChunkSizeLF p1)) [])
-      else if is_hex c then Go_on (keep c p) []
-      else parse_if_needed (fun p1 => Go_on (keep c p1) [])
+      else if is_hex c && (csize p <? 0)%Z then Go_on (keep c p) []
+      else Fail ErrInvalidChunkSize []
+  | SChunkExt =>
+      if N.eqb c CR then Go_on (after (set_st SChunkSizeLF p)) [] else Go_on (keep c p) []
   | SChunkSizeLF =>
       if N.eqb c LF then
         let p1 := after p in
@@ -387,7 +390,8 @@ Definition stepb (p : pst) (c : byte) : outcome :=
       if is_token c then Go_on (at_i c (set_st STrailerKey p)) []
       else if N.eqb c CR then
         (if negb (isnil (trailer p)) then Fail ErrTrailerExpected [] else Go_on (after (set_st STailLF p)) [])
-      else Go_on (keep c p) []
+      else if N.eqb c SP || N.eqb c HT then Go_on (keep c p) []
+      else Fail ErrInvalidCharInHeader []
   | STrailerKey =>
       if N.eqb c SP then Go_on (keep c (if isnil (hkey p) then set_hkey (canonical T) p else p)) []
       else if N.eqb c COLON then
